@@ -5,8 +5,8 @@ import (
 	"sort"
 	"strings"
 
-	"github.com/fufuok/cache/internal/xsync"
 	vtime "github.com/fufuok/cache/internal/vshim/time"
+	"github.com/fufuok/cache/internal/xsync"
 )
 
 // ---- C11: contents never depend on capacity, resize history, hash seed or bucket layout ----
@@ -281,8 +281,8 @@ func (b *bulkInst) Close()        {}
 // cacheAsMap lets the bulk histories run against Cache / CacheOf (forever entries).
 type cacheAsMap struct{ c CacheLike }
 
-func (a cacheAsMap) Load(k int) (int, bool)  { return a.c.Get(k) }
-func (a cacheAsMap) Store(k, v int)          { a.c.SetForever(k, v) }
+func (a cacheAsMap) Load(k int) (int, bool) { return a.c.Get(k) }
+func (a cacheAsMap) Store(k, v int)         { a.c.SetForever(k, v) }
 func (a cacheAsMap) LoadOrStore(k, v int) (int, bool) {
 	return a.c.GetOrSet(k, v, durNoExp)
 }
